@@ -29,8 +29,10 @@ func c20Trees(marker string) []c20Tree {
 		{"nested-import", map[string]string{"main.ecal": "import \"lib/sub/l.ecal\" as l\nl.v + 1", "lib/sub/l.ecal": "v := 6", "lib/other.ecal": "w := 1"}, "main.ecal", 7},
 		{"empty-and-binary", map[string]string{"main.ecal": "3", "empty.txt": "", "bin.dat": "\x00\x01#" + marker + "\xff####\n"}, "main.ecal", 3},
 		// names that start with a dot, directories side by side, a file after a subdirectory in name order, a deep path
-		{"dot-and-siblings", map[string]string{"main.ecal": "import \".lib/h.ecal\" as h\nimport \".settings.ecal\" as s\nimport \"lib/a.ecal\" as a\nimport \"util/b.ecal\" as b\nimport \"z.ecal\" as z\nimport \"lib/deep/er/d.ecal\" as d\nh.v + s.v + a.v + b.v + z.v + d.v",
-			".lib/h.ecal": "v := 1", ".settings.ecal": "v := 2", "lib/a.ecal": "v := 4", "lib/deep/er/d.ecal": "v := 8", "lib/e.bin": "\x00", "util/b.ecal": "v := 16", "z.ecal": "v := 32"}, "main.ecal", 63},
+		{"dot-and-siblings", map[string]string{"main.ecal": "import \".lib/h.ecal\" as h\nimport \".settings.ecal\" as s\nimport \"lib/a.ecal\" as a\nimport \"util/b.ecal\" as b\nimport \"z.ecal\" as z\nimport \"lib/deep/er/d.ecal\" as d\nimport \"source.bin/l.ecal\" as l\nh.v + s.v + a.v + b.v + z.v + d.v + l.v",
+			".lib/h.ecal": "v := 1", ".settings.ecal": "v := 2", "lib/a.ecal": "v := 4", "lib/deep/er/d.ecal": "v := 8", "lib/e.bin": "\x00", "util/b.ecal": "v := 16", "z.ecal": "v := 32",
+			// entries named like the source and the target binary (which live elsewhere)
+			"source.bin/l.ecal": "v := 64", "lib/target.bin": "not the target"}, "main.ecal", 127},
 	}
 }
 
